@@ -44,7 +44,10 @@ impl Rt for Icmp4 {
             Tier::Thorough => du,
         };
         let te = [Icmpv4TimeExceeded::TtlExpired, Icmpv4TimeExceeded::FragExpired, Icmpv4TimeExceeded::Unknown(2), Icmpv4TimeExceeded::Unknown(255)];
-        for l in pick(tier, &[8usize, 28, 9, 548], 2) {
+        // ICMPv4 has no cut rule of its own in the wire layer (buffer_len = 8 + 20 + data.len(),
+        // the interface cuts before building the Repr): lengths beyond the ICMPv6 limit are
+        // ordinary values and must round-trip unchanged
+        for l in pick(tier, &[8usize, 28, 1193, 2000, 9, 548, 1200, 1232, 1233, 1500], 4) {
             for h in v4hdrs(tier, l) {
                 for r in &du {
                     v.push((Icmpv4Repr::DstUnreachable { reason: *r, header: h, data: pat(l) }, ()));
@@ -96,7 +99,7 @@ impl Rt for Icmp4 {
         }
     }
     fn domain_doc() -> &'static str {
-        "EchoRequest/EchoReply: ident {0,1,0x8000,0xffff} x seq_no (same) x data length {0,1,2,3,1472}; DstUnreachable: reason (16 known codes + Unknown(16), Unknown(255)) x embedded Ipv4Repr (3 address pairs x 3 protocols x hop {0,64,255}) x data length {8,9,28,548} with header.payload_len = data.len(); TimeExceeded: reason {TtlExpired, FragExpired, Unknown(2), Unknown(255)} x same"
+        "EchoRequest/EchoReply: ident {0,1,0x8000,0xffff} x seq_no (same) x data length {0,1,2,3,1472}; DstUnreachable: reason (16 known codes + Unknown(16), Unknown(255)) x embedded Ipv4Repr (3 address pairs x 3 protocols x hop {0,64,255}) x data length {8,9,28,548,1193,1200,1232,1233,1500,2000} with header.payload_len = data.len() (no cut rule in the ICMPv4 wire code); TimeExceeded: reason {TtlExpired, FragExpired, Unknown(2), Unknown(255)} x same"
     }
 }
 
@@ -372,6 +375,23 @@ fn mld_same(a: &MldRepr, b: &MldRepr) -> bool {
     }
 }
 
+/// The value `parse(emit(r))` is expected to be: error messages quote at most what
+/// `buffer_len()` leaves after the ICMPv6 and the quoted IPv6 header ("cut to the minimum MTU
+/// by design", the statement's proviso); everything else unchanged.
+fn cut<'a>(r: &Icmpv6Repr<'a>) -> Icmpv6Repr<'a> {
+    let adm = |h: &Ipv6Repr, d: &'a [u8]| -> &'a [u8] {
+        let n = r.buffer_len().saturating_sub(8 + h.buffer_len());
+        &d[..d.len().min(n)]
+    };
+    match *r {
+        Icmpv6Repr::DstUnreachable { reason, header, data } => Icmpv6Repr::DstUnreachable { reason, header, data: adm(&header, data) },
+        Icmpv6Repr::PktTooBig { mtu, header, data } => Icmpv6Repr::PktTooBig { mtu, header, data: adm(&header, data) },
+        Icmpv6Repr::TimeExceeded { reason, header, data } => Icmpv6Repr::TimeExceeded { reason, header, data: adm(&header, data) },
+        Icmpv6Repr::ParamProblem { reason, pointer, header, data } => Icmpv6Repr::ParamProblem { reason, pointer, header, data: adm(&header, data) },
+        other => other,
+    }
+}
+
 pub struct Icmp6;
 fn v6pairs(tier: Tier) -> Vec<(Ipv6Address, Ipv6Address)> {
     let a = v6s();
@@ -400,8 +420,9 @@ impl Rt for Icmp6 {
         du.push(Icmpv6DstUnreachable::Unknown(255));
         let te = [Icmpv6TimeExceeded::HopLimitExceeded, Icmpv6TimeExceeded::FragReassemExceeded, Icmpv6TimeExceeded::Unknown(2), Icmpv6TimeExceeded::Unknown(255)];
         let pp = [Icmpv6ParamProblem::ErroneousHdrField, Icmpv6ParamProblem::UnrecognizedNxtHdr, Icmpv6ParamProblem::UnrecognizedOption, Icmpv6ParamProblem::Unknown(3), Icmpv6ParamProblem::Unknown(255)];
-        // 1192 = 1280 - 40 - 8 - 40: the longest error payload that is not cut
-        for l in pick(tier, &[8usize, 0, 1192, 1], 3) {
+        // 1192 = 1280 - 40 - 8 - 40: the longest error payload that is not cut; beyond it the
+        // quoted packet is cut to what buffer_len() admits (expected value: see `cut`)
+        for l in pick(tier, &[8usize, 0, 1192, 1193, 2000, 1232, 1233, 1, 1200, 1500], 7) {
             for hl in pick(tier, &[l, 0, 65535], 2) {
                 for h in v6hdrs(tier, hl) {
                     for r in pick(tier, &du, 3) {
@@ -451,15 +472,12 @@ impl Rt for Icmp6 {
     fn same(a: &Icmpv6Repr, b: &Icmpv6Repr, _: &Self::Ctx) -> bool {
         match (a, b) {
             (Icmpv6Repr::Mld(x), Icmpv6Repr::Mld(y)) => mld_same(x, y),
-            _ => a == b,
+            // expected value = the value with its quoted payload cut to what buffer_len() admits
+            _ => cut(a) == *b,
         }
     }
-    fn legal(r: &Icmpv6Repr, _: &Self::Ctx) -> bool {
-        match r {
-            // error payloads beyond the minimum MTU are cut by design
-            Icmpv6Repr::DstUnreachable { data, .. } | Icmpv6Repr::PktTooBig { data, .. } | Icmpv6Repr::TimeExceeded { data, .. } | Icmpv6Repr::ParamProblem { data, .. } => data.len() <= 1192,
-            _ => true,
-        }
+    fn show_lhs(r: &Icmpv6Repr) -> String {
+        format!("{:#?}", cut(r))
     }
     fn tag(r: &Icmpv6Repr) -> String {
         match r {
@@ -498,7 +516,7 @@ impl Rt for Icmp6 {
         }
     }
     fn domain_doc() -> &'static str {
-        "per (src,dst) pseudo-header pair (3 pairs: link-local->multicast, global->ULA, unspecified->solicited-node): Echo request/reply (ident, seq_no in {0,1,0x8000,0xffff}, data length {0,1,2,3,1232}); DstUnreachable (7 known codes + Unknown(7), Unknown(255)), PktTooBig (mtu {0,1,2^31,2^32-1}), TimeExceeded (2 known + 2 unknown), ParamProblem (3 known + 2 unknown x pointer(4)), each x embedded Ipv6Repr (3 address pairs x 3 next headers x hop {0,64,255} x payload_len {data.len(),0,65535}) x data length {0,1,8,1192 = longest uncut}; plus every 7th NDISC value and every 5th MLD value of the NdiscRepr / MldRepr domains wrapped in Icmpv6Repr"
+        "per (src,dst) pseudo-header pair (3 pairs: link-local->multicast, global->ULA, unspecified->solicited-node): Echo request/reply (ident, seq_no in {0,1,0x8000,0xffff}, data length {0,1,2,3,1232}); DstUnreachable (7 known codes + Unknown(7), Unknown(255)), PktTooBig (mtu {0,1,2^31,2^32-1}), TimeExceeded (2 known + 2 unknown), ParamProblem (3 known + 2 unknown x pointer(4)), each x embedded Ipv6Repr (3 address pairs x 3 next headers x hop {0,64,255} x payload_len {data.len(),0,65535}) x data length {0,1,8,1192 = longest uncut, and 1193,1200,1232,1233,1500,2000 beyond the cut: emitted into exactly buffer_len() bytes, expected parse result = the value with data cut to buffer_len()-48 bytes}; plus every 7th NDISC value and every 5th MLD value of the NdiscRepr / MldRepr domains wrapped in Icmpv6Repr"
     }
 }
 
@@ -543,7 +561,7 @@ impl Rt for Ndisc {
         }
     }
     fn domain_doc() -> &'static str {
-        "lladdr in {None, Ethernet 6-byte, IEEE 802.15.4 extended 8-byte} (the two lengths RawHardwareAddress::parse knows); RouterSolicit{lladdr}; RouterAdvert{hop_limit(4) x flags(4 combinations) x router_lifetime {0,1,65535 s} x reachable_time {0,1,2^32-1 ms} x retrans_time {0,2^32-1 ms} x lladdr(3) x mtu {None,0,1500,2^32-1} x prefix_info {None, 3 values}}; NeighborSolicit{target(11) x lladdr}; NeighborAdvert{flags (8 combinations) x target x lladdr}; Redirect{target x dest(11) x lladdr x redirected_hdr {None, data length 0,3,8,40 with header.payload_len = data.len()}}; emitted through Icmpv6Packet without the checksum step (that step is covered by Icmpv6Repr)"
+        "lladdr in {None, Ethernet 6-byte, IEEE 802.15.4 extended 8-byte} (the two lengths RawHardwareAddress::parse knows); RouterSolicit{lladdr}; RouterAdvert{hop_limit(4) x flags(4 combinations) x router_lifetime {0,1,65535 s} x reachable_time {0,1,2^32-1 ms} x retrans_time {0,2^32-1 ms} x lladdr(3) x mtu {None,0,1500,2^32-1} x prefix_info {None, 3 values}}; NeighborSolicit{target(13) x lladdr}; NeighborAdvert{flags (8 combinations) x target x lladdr}; Redirect{target x dest(13) x lladdr x redirected_hdr {None, data length 0,3,8,40 with header.payload_len = data.len()}}; emitted through Icmpv6Packet without the checksum step (that step is covered by Icmpv6Repr)"
     }
 }
 
@@ -633,7 +651,7 @@ impl Rt for NdOpt {
         }
     }
     fn domain_doc() -> &'static str {
-        "Source/TargetLinkLayerAddr (6- and 8-byte addresses); PrefixInformation{prefix_len {0,64,128,255} x flags(4) x valid_lifetime {0,1,2^32-1 s} x preferred_lifetime (same) x prefix(11)}; RedirectedHeader{embedded Ipv6Repr(27) x data length {0,1,3,8,40,1200}, header.payload_len = data.len()}; Mtu {0,1,2^31,2^32-1}; Unknown{type {0,6,14,255} x length {1,2,255} with data.len() = 8*length-2}"
+        "Source/TargetLinkLayerAddr (6- and 8-byte addresses); PrefixInformation{prefix_len {0,64,128,255} x flags(4) x valid_lifetime {0,1,2^32-1 s} x preferred_lifetime (same) x prefix(13)}; RedirectedHeader{embedded Ipv6Repr(27) x data length {0,1,3,8,40,1200}, header.payload_len = data.len()}; Mtu {0,1,2^31,2^32-1}; Unknown{type {0,6,14,255} x length {1,2,255} with data.len() = 8*length-2}"
     }
 }
 
